@@ -284,6 +284,7 @@ MUTANTS += [
     M("minipcn kernel built without the target", _MP, "log_prob_fn=log_prob_fn,\n            step_fn", "log_prob_fn=self.log_prior,\n            step_fn", "C05.bind"),
 ]
 NEUTRALS = [
+    __import__("aspire_sa.rules.smcloop", fromlist=["HELPER_NEUTRAL"]).HELPER_NEUTRAL,
     M("NaN map via where", _B, "log_prob = update_at_indices(\n            log_prob, self.xp.isnan(log_prob), -self.xp.inf\n        )", "log_prob = self.xp.where(self.xp.isnan(log_prob), -self.xp.inf, log_prob)"),
     M("tempered density regrouped", _S, "return (1 - beta) * self.log_q + beta * log_p_T", "return self.log_q + beta * (log_p_T - self.log_q)"),
     M("SMC target via temporary", _B, "log_q = self.prior_flow.log_prob(samples.x)\n        samples.log_q = samples.array_to_namespace(log_q)", "samples.log_q = samples.array_to_namespace(self.prior_flow.log_prob(samples.x))", within="SMCSampler.log_prob"),
